@@ -1006,12 +1006,22 @@ def gen_UnitsText(repo):
         raise AnchorLost("units.py:parse_units initial block")
     # second pass over the blocks: default exponent, reader, negation separator
     dflt_exp = reader = neg_sep = None
+    strict_exp = False
     for n in top:
         if isinstance(n, ast.For) and norm(n.iter) == "blocks" and norm(n.target) == "b":
             for st in n.body:
                 if isinstance(st, ast.If) and norm(st.test) == 'b[2]==""' and len(st.body) == 1 \
                         and isinstance(st.body[0], ast.Assign) and norm(st.body[0].targets[0]) == "b[2]":
                     dflt_exp = const_str(st.body[0].value)
+                    # optional `elif not (<strict ASCII integer test>): raise` before int()
+                    if not st.orelse:
+                        strict_exp = False
+                    elif len(st.orelse) == 1 and isinstance(st.orelse[0], ast.If) and not st.orelse[0].orelse \
+                            and any(isinstance(x, ast.Raise) for x in st.orelse[0].body) \
+                            and norm(st.orelse[0].test) == 'not(b[2].isascii()and(b[2][1:]ifb[2][0]=="-"elseb[2]).isdecimal())':
+                        strict_exp = True
+                    else:
+                        raise AnchorLost("units.py:parse_units exponent guard (elif after the default exponent)")
                 if isinstance(st, ast.Assign) and norm(st.targets[0]) == "b[2]" and isinstance(st.value, ast.Call) \
                         and isinstance(st.value.func, ast.Name) and norm(st.value.args[0]) == "b[2]" and len(st.value.args) == 1:
                     reader = st.value.func.id
@@ -1135,6 +1145,8 @@ def gen_UnitsText(repo):
     L.append("/-- exponent pass: `if b[2] == \"\": b[2] = <default>`, `b[2] = <reader>(b[2])`, `if b[0] == <sep>: b[2] = -b[2]` -/")
     L.append("def puDefaultExp : String := %s" % lean_str(dflt_exp))
     L.append("def puExpReader : String := %s" % lean_str(reader))
+    L.append("/-- `elif not (b[2].isascii() and (b[2][1:] if b[2][0] == \"-\" else b[2]).isdecimal()): raise` present before the reader -/")
+    L.append("def puStrictExponent : Bool := %s" % ("true" if strict_exp else "false"))
     L.append("def puNegSep : Char := '%s'" % neg_sep)
     L.append("/-- `addunit`: accept test, and whether the else branch raises -/")
     L.append("def puAddUnitTest : String := %s" % lean_str(au_test))
